@@ -34,6 +34,7 @@ var (
 	fzSkipped  atomic.Int64
 	fzErrors   atomic.Int64
 	fzOutput   atomic.Int64
+	fzNanos    atomic.Int64
 )
 
 func fuzzOutDir() string   { return os.Getenv("VERIF_C16_FUZZ_OUT") }
@@ -44,7 +45,7 @@ func flushFuzzStats() {
 	if d == "" || fzExecs.Load() == 0 {
 		return
 	}
-	b, _ := json.Marshal(map[string]int64{"execs": fzExecs.Load(), "excluded_known": fzExcluded.Load(), "skipped": fzSkipped.Load(), "diagnostics": fzErrors.Load(), "output": fzOutput.Load()})
+	b, _ := json.Marshal(map[string]int64{"execs": fzExecs.Load(), "excluded_known": fzExcluded.Load(), "skipped": fzSkipped.Load(), "diagnostics": fzErrors.Load(), "output": fzOutput.Load(), "target_ms": fzNanos.Load() / 1e6})
 	tmp := filepath.Join(d, fmt.Sprintf(".%d.tmp", os.Getpid()))
 	if os.WriteFile(tmp, b, 0o644) == nil {
 		os.Rename(tmp, filepath.Join(d, fmt.Sprintf("%d.json", os.Getpid())))
@@ -91,7 +92,9 @@ func fuzzJudge(t *testing.T, sub string, c interface{}) {
 		fzExcluded.Add(1)
 		return
 	}
+	t0 := time.Now()
 	res, done, _ := watched(sub, raw, watchdogWall)
+	fzNanos.Add(int64(time.Since(t0)))
 	if !done {
 		// the goroutine keeps spinning; this worker process ends with the campaign
 		fuzzFail(t, sub, c, "slow", fmt.Sprintf("no return after %v (suspected hang; to be confirmed in fresh processes)", watchdogWall), "")
@@ -410,7 +413,7 @@ func triageFuzzFailure(t *testing.T, sub string, raw json.RawMessage, name strin
 			H.Note("fuzz: %s is slow beyond the nesting bound (%s): not charged", name, sv.Detail)
 			return false
 		}
-		recordViolation(sub, sv.Raw, vdrv.Fail(sv.Detail, "the call returns within seconds", sv.Observe))
+		H.Note("fuzz: confirmed hang, replay %s", sv.Path)
 		return true
 	}
 	fails := 0
